@@ -12,7 +12,8 @@ def CHOOSE(
     https://support.office.com/en-us/article/
         choose-function-fc5c184f-cb62-4ec7-a46e-38653b98f5bc
     """
-    if index_num <= 0 or index_num > 254:
+    # (An index between 0 and 1 truncates to 0: it is outside 1..254, too.)
+    if index_num < 1 or index_num > 254:
         raise xlerrors.ValueExcelError(
             f"`index_num` {index_num} must be between 1 and 254")
 
